@@ -239,7 +239,10 @@ func (c *compiler) compile(slice bigslice.Slice, part partitioner) (tasks []*Tas
 		}
 		// We now insert a set of tasks whose only purpose is (re-)shuffling
 		// the output from the previously completed task.
-		shuffleOpName := c.namer.New(fmt.Sprintf("%s_shuffle", result.tasks[0].Name.Op))
+		// The name includes this invocation's index (as all other task
+		// names do): tasks are stored by name, and different invocations may
+		// re-shuffle the same result differently.
+		shuffleOpName := c.namer.New(fmt.Sprintf("inv%d_%s_shuffle", c.inv.Index, result.tasks[0].Name.Op))
 		tasks = make([]*Task, len(result.tasks))
 		for shard, task := range result.tasks {
 			tasks[shard] = &Task{
@@ -255,6 +258,12 @@ func (c *compiler) compile(slice bigslice.Slice, part partitioner) (tasks []*Tas
 				Deps:   []TaskDep{{task, 0, false, ""}},
 				Pragma: task.Pragma,
 				Slices: task.Slices,
+				// These tasks exist to (re-)partition the result's output for
+				// the consuming shuffle.
+				NumPartition: part.NumPartition(),
+				Partitioner:  part.Partitioner(),
+				Combiner:     part.Combiner,
+				CombineKey:   part.CombineKey,
 			}
 		}
 		return
